@@ -100,6 +100,13 @@ FIXED += [
   'with links "m -> ." and "l -> m/..", the entry "zz/../l/sib/pwn" was written into an existing directory outside dst: the parent walk stopped at the missing component "zz" of the raw name'),
 ]
 
+FIXED += [
+ ("C02", "not-omitted", "fix: ignore patterns with '**' did not match paths containing a newline",
+  'a file below .terraform/ (or .git/) whose path contains a newline was shipped by Pack and kept in bundles: ".*" did not match the newline'),
+ ("C19", "opendir-panic", "fix: an over-long number in a version string no longer panics the parsers",
+  'OpenDir on a manifest with version key "1.99999999999999999999.0", and ParseFinalSource("ns/name/sys@1.99999999999999999999.0"), panicked inside versions.ParseVersion'),
+]
+
 OPEN = [
  ("C04", "dotdot-after-symlink-component",
   'a link whose target applies ".." after a component that is itself a symlink in dst (e.g. "d/l -> .." together with "m -> d/l/../secret", in either order) is accepted because targets are validated lexically; the operating system resolves m to a location outside dst. No entry can be written through such a link any more (see the fixed C01 entries), but the link itself remains'),
